@@ -271,7 +271,7 @@ def run_property(prop, tier="quick", replay=None, extra_checks=None):
         # one of the default presentation.
         try:
             fb, rep = evaluate("spliced")
-            rewritten = bool(fb.spliced or getattr(fb, "desugared", None) or getattr(fb, "unzipped", None) or getattr(fb, "flatten", None))
+            rewritten = bool(fb.spliced or getattr(fb, "desugared", None) or getattr(fb, "unzipped", None) or getattr(fb, "flatten", None) or getattr(fb, "delegations", None))
             if any(o.status != "ok" for o in rep.obs) and (rewritten or fb.fresh_loopy):
                 best = (sum(1 for o in rep.obs if o.status != "ok"), fb, rep, "spliced")
                 for alt in (["loops"] if fb.fresh_loopy else []) + (["written"] if rewritten else []):
